@@ -281,6 +281,15 @@ impl Report {
 		// One VIOLATION line per distinct unknown class (first = simplest counterexample).
 		let mut seen = std::collections::BTreeSet::new();
 		let rdir = out_root().join("replays").join("last");
+		// counterexamples of earlier runs of this property are stale now
+		if let Ok(rd) = std::fs::read_dir(&rdir) {
+			let prefix = format!("{}-", self.property);
+			for e in rd.flatten() {
+				if e.file_name().to_string_lossy().starts_with(&prefix) {
+					let _ = std::fs::remove_file(e.path());
+				}
+			}
+		}
 		for v in &unknown {
 			if !seen.insert(v.class.clone()) {
 				continue;
